@@ -125,9 +125,13 @@ func ParseFloat(b []byte) (float64, int) {
 		// keep the intermediate value normal: powers of ten below 1e-308 are subnormal and have few significant bits
 		return f * math.Pow10(int(exp)+290) * 1e-290, i
 	}
+	if -290 <= exp && exp <= 308 {
+		// one factor in the normal range; below, each factor on its own may be a subnormal power of ten with few significant bits
+		return f * math.Pow10(int(exp)), i
+	}
 	h := f * math.Pow10(int(-mantExp))
 	h *= math.Pow10(int(expExp))
-	if h == 0.0 || math.IsInf(h, 0) {
+	if h == 0.0 || math.IsInf(h, 0) || math.IsNaN(h) { // zero times infinity is NaN
 		// either factor alone can leave math.Pow10's [-323,308] domain
 		if exp < -308 {
 			f *= math.Pow10(-308)
